@@ -40,7 +40,7 @@ PROPS = {
         ],
     },
     "C04": {
-        "units": ["transcripts", "verify"],
+        "units": ["transcripts", "verify", "prove"],
         "design_ref": "DESIGN.md section 7, C04",
         "technique": "contract-based deductive verification (Verus): ghost-log model of merlin; real TranscriptProtocol impl, RangeProofTranscript and verify proved to absorb exactly the specified sequence before each challenge",
         "claim": "Every challenge (y, z, each round e_j, final e) derived by the verifier is proved to equal the transcript oracle applied to exactly the specified log: "
@@ -50,21 +50,25 @@ PROPS = {
         "assumptions": [
             "merlin 3.0.0 is modelled by a ghost log of (label, message) / (label, n) events with an uninterpreted strobe_prf; message framing by length is merlin's",
             "collision resistance / random-oracle behaviour of Strobe-128 (a changed log gives a changed challenge) is assumed, not proved",
-            "prover-side transcript agreement is part of unit prove (listed there when claimed)",
+            "prover side: prove_with_rng is proved to draw y, z, every e_t and e from the oracle on the log of its own output proof (same specification function), absorbing compress(h_base)",
         ],
     },
     "C09": {
-        "units": ["nonce", "verify", "prove"],
+        "units": ["nonce", "verify", "prove", "lemmas"],
         "design_ref": "DESIGN.md section 7, C09",
         "technique": "contract-based deductive verification (Verus): byte-level KDF contract for nonce(), per-component mask formula as loop invariants of the real verify(), position-wise postcondition",
         "claim": "nonce() is proved to be the documented keyed-Blake2b KDF (byte layout of key, label as persona, index encoding) and total on the verifier's arguments; "
                  "verify() is proved to return, for every batch position i and every extension-degree component k, exactly "
                  "((d1[k] - eta_k - e*d_k)*e^-2 - alpha_k - sum_j(e_j^2*dL_jk + e_j^-2*dR_jk)) * (z^2*y^(n+1))^-1 when the statement carries a seed and the mode recovers, "
-                 "and None otherwise (VerifyOnly, no seed).",
+                 "and None otherwise (VerifyOnly, no seed). prove_with_rng is proved to output, for a seeded statement, d1_k = eta_k + d_k*e + "
+                 "(alpha_k + sum_j z^2j r_jk y^(nm+1) + sum_t(dL_tk e_t^2 + dR_tk e_t^-2)) e^2 with all five nonce families equal to the KDF and (y, z, e_t, e) equal to the transcript "
+                 "oracle on the log of its own output (the same specification function the verifier is proved against). The pure lemma lemma_c09_end_to_end composes the two "
+                 "postconditions: for one commitment under a seed, every extension degree 1..6 and every bit length, what the verifier returns is the opening's blinding vector, "
+                 "component by component (hypotheses: nonzero challenges - a postcondition - and h_base_compressed == compress(h_base)).",
         "assumptions": [
             "Blake2bMac512 / Scalar::from_bytes_mod_order_wide are uninterpreted functions with the documented Ok-condition (key <= 64, salt/persona <= 16 bytes)",
             "Scalar::batch_invert returns element-wise inverses (its debug_assert for a zero input concerns y == 1, probability 2^-252)",
-            "the prover-side d1 formula and the composition lemma (recovered value == blinding factor) are claimed only once unit prove is in place",
+            "the statement's Pedersen generators must carry h_base_compressed == compress(h_base) for the prover's and the verifier's logs to coincide (true for library-built generators; a pub-field struct)",
         ],
     },
     "C16": {
